@@ -155,6 +155,30 @@ func Mk(op, k string, args ...*Term) *Term {
 		case "!=":
 			return Mk("not", "", Mk("cmp", "==", a, b))
 		}
+		// comparisons of a term with an integer constant have one canonical form, x > k (possibly negated):
+		//   x >= k  ==  x > k-1        k >= x  ==  !(x > k)        k > x  ==  !(x > k-1)
+		// (all values compared in the cache layer are integers: durations, instants, lengths)
+		_, aConst := a.IntVal()
+		_, bConst := b.IntVal()
+		if !aConst && bConst && k == ">=" {
+			kb, _ := b.IntVal()
+			return Mk("cmp", ">", a, Int(kb-1))
+		}
+		if aConst && !bConst && k == ">=" {
+			return Mk("not", "", Mk("cmp", ">", b, a))
+		}
+		if aConst && !bConst && k == ">" {
+			ka, _ := a.IntVal()
+			return Mk("not", "", Mk("cmp", ">", b, Int(ka-1)))
+		}
+		// a length is never negative: len == 0  ==  !(len > 0)
+		if k == "==" {
+			for _, pr := range [][2]*Term{{a, b}, {b, a}} {
+				if kk, isC := pr[0].IntVal(); isC && kk == 0 && pr[1].Op == "len" {
+					return Mk("not", "", Mk("cmp", ">", pr[1], Int(0)))
+				}
+			}
+		}
 		if x, ok1 := a.IntVal(); ok1 {
 			if y, ok2 := b.IntVal(); ok2 {
 				switch k {
